@@ -503,8 +503,17 @@ func randomOp(r *gen.Rand, m *ref.TSPacket) op {
 	return o
 }
 
+// the packets under test live in three objects that are used over and over (the way a muxer re-uses its
+// packet buffers): what the library learnt about a previous occupant of the same object must not matter
+var (
+	runners    [3]runner
+	nextRunner int
+)
+
 func newRunner(c *mon.Ctx, m ref.TSPacket) *runner {
-	x := &runner{c: c, m: m, kinds: map[string]bool{}}
+	x := &runners[nextRunner%len(runners)]
+	nextRunner++
+	*x = runner{c: c, m: m, kinds: map[string]bool{}}
 	x.p = packet.Packet(m.Bytes())
 	x.init = x.p
 	x.hist = nil
